@@ -196,6 +196,13 @@ pub fn tokenize_expression(input: &str) -> Result<Vec<Token>, CompilerError> {
                     let value = token_text.parse::<f32>().map_err(|error| {
                         CompilerError::invalid_source(format!("invalid float literal: {error}"))
                     })?;
+                    // `parse` answers a literal beyond f32::MAX with infinity,
+                    // which no story document can hold.
+                    if !value.is_finite() {
+                        return Err(CompilerError::invalid_source(format!(
+                            "invalid float literal: {token_text} is too large"
+                        )));
+                    }
                     tokens.push(Token::Float(value));
                 } else {
                     let value = token_text.parse::<i32>().map_err(|error| {
